@@ -1019,7 +1019,7 @@ func (v *Validator) typeOfHasTag(env *requestEnv, n ast.NodeTypeHasTag, caps cap
 	if varName := exprVarName(n.Left); varName != "" {
 		tagKey := tagCapabilityKey(n.Right)
 		if tagKey != "" {
-			newCaps = caps.add(capability{varName: varName, attr: types.String("__tag:" + tagKey)})
+			newCaps = caps.add(capability{varName: varName, attr: tagKey, tag: true})
 		}
 	}
 
@@ -1068,7 +1068,7 @@ func (v *Validator) typeOfGetTag(env *requestEnv, n ast.NodeTypeGetTag, caps cap
 
 	varName := exprVarName(n.Left)
 	tagKey := tagCapabilityKey(n.Right)
-	hasCapability := varName != "" && tagKey != "" && caps.has(capability{varName: varName, attr: types.String("__tag:" + tagKey)})
+	hasCapability := varName != "" && tagKey != "" && caps.has(capability{varName: varName, attr: tagKey, tag: true})
 
 	if hasCapability {
 		// Capability is only set by hasTag when entity supports tags
